@@ -177,6 +177,24 @@ impl Write for CountSink {
     }
 }
 
+/// Harness-global fault bookkeeping (read between API calls without sharing the files):
+/// number of destination operations that reported an error, and the "destination works
+/// again" switch.
+pub static mut FAULTS_FIRED: u32 = 0;
+pub static mut FAULTS_HEALED: bool = false;
+pub fn faults_fired() -> u32 {
+    unsafe { FAULTS_FIRED }
+}
+pub fn faults_heal() {
+    unsafe { FAULTS_HEALED = true }
+}
+pub fn faults_reset() {
+    unsafe {
+        FAULTS_FIRED = 0;
+        FAULTS_HEALED = false;
+    }
+}
+
 /// Destination that fails its `fail_at`-th operation (counting write, seek and flush
 /// calls from 0). `persistent`: every operation from `fail_at` on fails, until `heal()`.
 /// `short`: each `write` accepts a nondeterministic number of bytes in 1..=len
@@ -187,8 +205,12 @@ pub struct FaultFile<const N: usize> {
     pub fail_at: u32,
     pub persistent: bool,
     pub fired: bool,
+    /// number of operations that reported an error so far
+    pub n_fired: u32,
     pub healed: bool,
     pub short: bool,
+    /// 0: symbolic count in 1..=offered; 1: one byte; 2: all but one byte; 3: half, rounded up
+    pub short_policy: u8,
 }
 
 impl<const N: usize> FaultFile<N> {
@@ -199,8 +221,10 @@ impl<const N: usize> FaultFile<N> {
             fail_at,
             persistent,
             fired: false,
+            n_fired: 0,
             healed: false,
             short: false,
+            short_policy: 0,
         }
     }
     pub fn never() -> Self {
@@ -212,11 +236,13 @@ impl<const N: usize> FaultFile<N> {
     fn tick(&mut self) -> io::Result<()> {
         let n = self.op;
         self.op += 1;
-        if self.healed {
+        if self.healed || unsafe { FAULTS_HEALED } {
             return Ok(());
         }
         if n == self.fail_at || (self.persistent && n > self.fail_at) {
             self.fired = true;
+            self.n_fired += 1;
+            unsafe { FAULTS_FIRED += 1 };
             return Err(io::Error::from(io::ErrorKind::Other));
         }
         Ok(())
@@ -234,15 +260,41 @@ fn any_chunk(max: usize) -> usize {
     max
 }
 
+impl<const N: usize> FaultFile<N> {
+    fn chunk(&self, offered: usize) -> usize {
+        if !self.short || offered <= 1 {
+            return offered;
+        }
+        match self.short_policy {
+            1 => 1,
+            2 => offered - 1,
+            3 => (offered + 1) / 2,
+            _ => any_chunk(offered),
+        }
+    }
+}
+
 impl<const N: usize> Write for FaultFile<N> {
     fn write(&mut self, data: &[u8]) -> io::Result<usize> {
         self.tick()?;
-        if self.short && data.len() > 1 {
-            let c = any_chunk(data.len());
-            self.f.write(&data[..c])
-        } else {
-            self.f.write(data)
+        let c = self.chunk(data.len());
+        self.f.write(&data[..c])
+    }
+    /// Same contract as std's default `write_all` (repeat `write` until everything is
+    /// accepted, stop at the first error), written out here because the default retries on
+    /// `ErrorKind::Interrupted` and CBMC cannot fold the bit-packed `io::Error` kind test,
+    /// which makes the default loop unbounded for the solver. One `write` = one operation.
+    fn write_all(&mut self, data: &[u8]) -> io::Result<()> {
+        // the accepted count is computed here rather than read back from the io::Result of
+        // `write`: a count extracted from a Result that may also be Err is not constant-folded
+        let mut off = 0;
+        while off < data.len() {
+            self.tick()?;
+            let c = self.chunk(data.len() - off);
+            let _ = self.f.write(&data[off..off + c]);
+            off += c;
         }
+        Ok(())
     }
     fn flush(&mut self) -> io::Result<()> {
         self.tick()?;
@@ -375,6 +427,24 @@ impl Read for FaultSource<'_> {
         } else {
             self.s.read(out)
         }
+    }
+    /// std's contract for `read_exact`, without the retry on `Interrupted` (see
+    /// `FaultFile::write_all`).
+    fn read_exact(&mut self, out: &mut [u8]) -> io::Result<()> {
+        let mut off = 0;
+        while off < out.len() {
+            self.tick()?;
+            let want = out.len() - off;
+            let c0 = if self.short && want > 1 { any_chunk(want) } else { want };
+            let avail = self.s.len - if self.s.pos < self.s.len { self.s.pos } else { self.s.len };
+            let c = if c0 < avail { c0 } else { avail };
+            if c == 0 {
+                return Err(io::Error::from(io::ErrorKind::UnexpectedEof));
+            }
+            let _ = self.s.read(&mut out[off..off + c]);
+            off += c;
+        }
+        Ok(())
     }
 }
 impl Seek for FaultSource<'_> {
